@@ -26,9 +26,12 @@ def run_impl(ops, extra_env=None, timeout=1800):
     env['HPACK_REPO'] = repo_dir()
     env.setdefault('PYTHONHASHSEED', '0')
     env['PYTHONDONTWRITEBYTECODE'] = '1'
+    flags = []
     if extra_env:
+        extra_env = dict(extra_env)
+        flags = extra_env.pop('_PYFLAGS', '').split()          # interpreter options that have no environment variable (-bb, -X …)
         env.update(extra_env)
-    p = subprocess.run([python_exe(), os.path.join(HERE, 'impl_driver.py')], input='\n'.join(ops) + '\n',
+    p = subprocess.run([python_exe()] + flags + [os.path.join(HERE, 'impl_driver.py')], input='\n'.join(ops) + '\n',
                        capture_output=True, text=True, env=env, timeout=timeout)
     out = p.stdout.splitlines()
     if p.returncode != 0 or len(out) != len(ops):
